@@ -10,6 +10,6 @@ for D in $WT/_seeded/${PID}_*; do
   fi
   T=/verif/seeded/$(basename $D); mkdir -p $T; cp $D/patch.diff $D/demo.py $D/meta.json $D/confirm.txt $T/
 done
-cd /verif && python3-vt tools/seed_record.py seeded/${PID}_[${SEEDNUMS:-456}] 2>&1
+cd /verif && python3-vt tools/seed_record.py seeded/${PID}_${SEEDGLOB:-[456]} 2>&1
 git -C /repo worktree remove --force $WT; git -C /repo worktree prune
 echo FINISHED $PID
